@@ -114,6 +114,15 @@ class DistributedSend(Taggable):
     def copy(self, **kwargs: Any) -> DistributedSend:
         return dataclasses.replace(self, **kwargs)
 
+    def __eq__(self, other: object) -> bool:
+        if self is other:
+            return True
+        return (other.__class__ is self.__class__
+                and self.dest_rank == other.dest_rank  # type: ignore[attr-defined]
+                and self.comm_tag == other.comm_tag  # type: ignore[attr-defined]
+                and self.tags == other.tags  # type: ignore[attr-defined]
+                and self.data == other.data)  # type: ignore[attr-defined]
+
     if TYPE_CHECKING:
         def replace_if_different(self, **kwargs: Any) -> Self:
             return self
